@@ -38,7 +38,7 @@ def cases(tier, seed, i, n):
         k = 0
         for tls in (False, True):
             for size in SIZES:
-                for shape in ('one-message', 'many-small', 'two-messages-straddle', 'eof-behind', 'ends-with-empty'):
+                for shape in ('one-message', 'many-small', 'two-messages-straddle', 'eof-behind', 'ends-with-empty', 'valid-then-violation'):
                     variants = [(None, None)]
                     if tls:
                         variants = [(16384, None), (16384, 1), (16384, 100), (16384, 4096), (1000, None), (1000, 7),
@@ -109,6 +109,18 @@ def build_bursts(case):
                 j += 1
                 if j > 4000:
                     break
+        elif sh == 'valid-then-violation':
+            # complete messages and a Ping, then - in the same burst - a frame that violates the protocol:
+            # what was complete before it is still delivered / answered in this cycle
+            for j in range(3):
+                pl = ('v%d-%d' % (b, j)).encode() * max(1, min(size, 3000) // 8)
+                data += F(1, pl)
+                expected.append((('text', pl.decode()), b))
+            data += F(9, b'vp')
+            expected.append((('ping', b'vp'), b))
+            data += rnd.choice((F(3, b'x'), F(1, b'x', rsv=2), F(9, b'p' * 126), F(1, b'\xff'), F(2, b'm', mask=b'\x01\x02\x03\x04')))
+            bursts.append((t, data))
+            break
         elif sh == 'ends-with-empty':
             # a zero-length message is the very last thing in the burst (nothing follows in that read)
             pl = rnd.randbytes(min(size, 2000))
@@ -148,6 +160,8 @@ def build_bursts(case):
                 data += f2
                 expected.append((('binary', pl2), b))
         bursts.append((t, data))
+    if shape == 'valid-then-violation' and len(bursts) > 1 and bursts[-1] == bursts[-2]:
+        bursts.pop()
     return bursts, expected
 
 
@@ -212,7 +226,9 @@ def run_case(case, acc):
                     if skip:
                         skip -= 1
                         continue
-                    pong_times.append(e[1])
+                    fr = refws.decode_client_stream(e[5])[0]
+                    if fr and fr[0]['opcode'] == 10:
+                        pong_times.append(e[1])
             if len(pong_times) != len(ping_times) or any(abs(a - b) > 1e-9 for a, b in zip(pong_times, ping_times)):
                 key = 'automatic-pong-late-or-missing'
                 detail.update(pings=len(ping_times), pongs=len(pong_times))
